@@ -1,6 +1,353 @@
 import LcdbModel.Model.Lsm
 import LcdbModel.Model.DbIter
+import LcdbModel.Model.Files
+import LcdbModel.Lemmas.Files
+import LcdbModel.Props.C20
+/-
+  C13: garbage collection of database files (`ldb_remove_obsolete_files`, db_impl.c:644-735) never
+  removes a file that is still needed, removes everything else, and file numbers handed out by the
+  version set are fresh.
+
+  Model: LcdbModel/Model/Files.lean.  `toDelete s dir` are the names unlinked for the directory listing
+  `dir`; `removeObsolete s dir` is the listing afterwards.
+-/
 namespace Lcdb.C13
-open Lcdb
+open Lcdb Lcdb.Files
+
+/-! ### 1. nothing that is needed is deleted -/
+
+/-- No table of any live version or pending output is ever removed. -/
+theorem never_delete_live (s : GcState) (dir : List String) (name : String) :
+    name ∈ toDelete s dir → ∀ n, parseFileName name = some (.table, n) → n ∉ liveSet s := by
+  intro h n hp hn
+  have hk := keep_false_of_mem_toDelete h
+  rw [keep_table hp] at hk
+  simp [hn] at hk
+
+/-- The same, spelled out: neither a pending output nor a table of a live version is removed. -/
+theorem never_delete_live' (s : GcState) (dir : List String) (name : String) (n : Nat)
+    (h : name ∈ toDelete s dir) (hp : parseFileName name = some (.table, n)) :
+    n ∉ s.pending ∧ ∀ v ∈ s.liveVersions, n ∉ v := by
+  have := never_delete_live s dir name h n hp
+  rw [mem_liveSet_iff] at this
+  exact ⟨fun hn => this (.inl hn), fun v hv hn => this (.inr ⟨v, hv, hn⟩)⟩
+
+/-- Temp files are protected by the live set in the same way. -/
+theorem never_delete_live_temp (s : GcState) (dir : List String) (name : String) :
+    name ∈ toDelete s dir → ∀ n, parseFileName name = some (.temp, n) → n ∉ liveSet s := by
+  intro h n hp hn
+  have hk := keep_false_of_mem_toDelete h
+  rw [keep_temp hp] at hk
+  simp [hn] at hk
+
+/-- A deleted log is older than the current log and is not the previous log. -/
+theorem never_delete_needed_log (s : GcState) (dir : List String) (name : String) :
+    name ∈ toDelete s dir → ∀ n, parseFileName name = some (.log, n) →
+      n < s.logNumber ∧ n ≠ s.prevLogNumber := by
+  intro h n hp
+  have hk := keep_false_of_mem_toDelete h
+  rw [keep_log hp] at hk
+  simp only [ge_iff_le, Bool.or_eq_false_iff, decide_eq_false_iff_not, Nat.not_le,
+    beq_eq_false_iff_ne, ne_eq] at hk
+  exact hk
+
+/-- A deleted MANIFEST is older than the current one. -/
+theorem never_delete_current_manifest (s : GcState) (dir : List String) (name : String) :
+    name ∈ toDelete s dir → ∀ n, parseFileName name = some (.desc, n) → n < s.manifestNumber := by
+  intro h n hp
+  have hk := keep_false_of_mem_toDelete h
+  rw [keep_desc hp] at hk
+  simpa using hk
+
+/-- CURRENT, LOCK, LOG and LOG.old are never deleted. -/
+theorem never_delete_fixed (s : GcState) (dir : List String) :
+    "CURRENT" ∉ toDelete s dir ∧ "LOCK" ∉ toDelete s dir ∧
+    "LOG" ∉ toDelete s dir ∧ "LOG.old" ∉ toDelete s dir := by
+  have hc : parseFileName "CURRENT" = some (.current, 0) := by decide
+  have hl : parseFileName "LOCK" = some (.lock, 0) := by decide
+  have hi : parseFileName "LOG" = some (.info, 0) := by decide
+  have ho : parseFileName "LOG.old" = some (.info, 0) := by decide
+  refine ⟨fun h => ?_, fun h => ?_, fun h => ?_, fun h => ?_⟩ <;>
+    have hk := keep_false_of_mem_toDelete h
+  · rw [keep_current hc] at hk; cases hk
+  · rw [keep_lock hl] at hk; cases hk
+  · rw [keep_info hi] at hk; cases hk
+  · rw [keep_info ho] at hk; cases hk
+
+/-- More generally, nothing of type current / lock / info is deleted, whatever its spelling. -/
+theorem never_delete_fixed_type (s : GcState) (dir : List String) (name : String) (ty : FileType)
+    (n : Nat) (h : name ∈ toDelete s dir) (hp : parseFileName name = some (ty, n)) :
+    ty ≠ .current ∧ ty ≠ .lock ∧ ty ≠ .info := by
+  have hk := keep_false_of_mem_toDelete h
+  refine ⟨?_, ?_, ?_⟩ <;> rintro rfl
+  · rw [keep_current hp] at hk; cases hk
+  · rw [keep_lock hp] at hk; cases hk
+  · rw [keep_info hp] at hk; cases hk
+
+/-- A name that `parseFileName` rejects is never deleted: gc touches only owned names. -/
+theorem never_delete_foreign (s : GcState) (dir : List String) (name : String)
+    (hp : parseFileName name = none) : name ∉ toDelete s dir := by
+  intro h
+  have hk := keep_false_of_mem_toDelete h
+  rw [keep_of_parse_none hp] at hk
+  cases hk
+
+/-- In particular anything in a sub-directory (a name with a path separator) is untouched. -/
+theorem never_delete_subpath (s : GcState) (dir : List String) (name : String)
+    (h : '/' ∈ name.toList) : name ∉ toDelete s dir :=
+  never_delete_foreign s dir name (C20.parse_foreign_untouched h)
+
+/-- Only names of the listing are deleted. -/
+theorem toDelete_subset (s : GcState) (dir : List String) : ∀ name ∈ toDelete s dir, name ∈ dir :=
+  fun _ h => (mem_toDelete.1 h).2.1
+
+/-! ### 2. pending outputs protect files that are being written -/
+
+/-- A table registered in `pending_outputs` cannot be collected (before or after its file exists). -/
+theorem pending_protects (s : GcState) (dir : List String) (n : Nat) (hn : n < 2 ^ 64)
+    (h : n ∈ s.pending) : (fileNumStr n ++ ".ldb") ∉ toDelete s dir := fun hd =>
+  never_delete_live s dir _ hd n (C20.makeName_parse_ldb hn) (mem_pending_liveSet h)
+
+theorem pending_protects_sst (s : GcState) (dir : List String) (n : Nat) (hn : n < 2 ^ 64)
+    (h : n ∈ s.pending) : (fileNumStr n ++ ".sst") ∉ toDelete s dir := fun hd =>
+  never_delete_live s dir _ hd n (C20.makeName_parse_sst hn) (mem_pending_liveSet h)
+
+theorem pending_protects_dbtmp (s : GcState) (dir : List String) (n : Nat) (hn : n < 2 ^ 64)
+    (h : n ∈ s.pending) : (fileNumStr n ++ ".dbtmp") ∉ toDelete s dir := fun hd =>
+  never_delete_live_temp s dir _ hd n (C20.makeName_parse_dbtmp hn) (mem_pending_liveSet h)
+
+/-- The table files of a live version are protected as well. -/
+theorem live_version_protects (s : GcState) (dir : List String) (v : List Nat) (n : Nat)
+    (hn : n < 2 ^ 64) (hv : v ∈ s.liveVersions) (h : n ∈ v) :
+    (fileNumStr n ++ ".ldb") ∉ toDelete s dir ∧ (fileNumStr n ++ ".sst") ∉ toDelete s dir :=
+  ⟨fun hd => never_delete_live s dir _ hd n (C20.makeName_parse_ldb hn) (mem_version_liveSet hv h),
+   fun hd => never_delete_live s dir _ hd n (C20.makeName_parse_sst hn) (mem_version_liveSet hv h)⟩
+
+/-! ### 3. a background error suspends gc -/
+
+theorem bg_error_suspends (s : GcState) (dir : List String) (h : s.bgError = true) :
+    toDelete s dir = [] := by
+  simp [toDelete, h]
+
+theorem bg_error_keeps_dir (s : GcState) (dir : List String) (h : s.bgError = true) :
+    removeObsolete s dir = dir := removeObsolete_bgError h
+
+/-! ### 4. no garbage is left -/
+
+/-- Without background error, gc leaves exactly the names it decides to keep. -/
+theorem removeObsolete_eq (s : GcState) (dir : List String) (h : s.bgError = false) :
+    removeObsolete s dir = dir.filter (keep s) := removeObsolete_eq_filter h
+
+theorem no_garbage (s : GcState) (dir : List String) (h : s.bgError = false) :
+    ∀ name ∈ removeObsolete s dir, keep s name = true := by
+  intro name hm
+  rw [removeObsolete_eq s dir h] at hm
+  exact (List.mem_filter.1 hm).2
+
+/-- Every name left in the directory is foreign or owned and live. -/
+theorem no_garbage_owned (s : GcState) (dir : List String) (h : s.bgError = false) :
+    ∀ name ∈ removeObsolete s dir, parseFileName name = none ∨ ownedAndLive s name = true :=
+  fun name hm => keep_eq_true_iff.1 (no_garbage s dir h name hm)
+
+/-- Conversely nothing that is foreign or owned-and-live disappears. -/
+theorem removeObsolete_complete (s : GcState) (dir : List String) (name : String)
+    (hm : name ∈ dir) (hk : parseFileName name = none ∨ ownedAndLive s name = true) :
+    name ∈ removeObsolete s dir := by
+  cases h : s.bgError with
+  | true => rw [removeObsolete_bgError h]; exact hm
+  | false =>
+    rw [removeObsolete_eq s dir h]
+    exact List.mem_filter.2 ⟨hm, keep_eq_true_iff.2 hk⟩
+
+/-- The directory after gc is the listing minus the deleted names, and both parts partition it. -/
+theorem mem_dir_iff (s : GcState) (dir : List String) (name : String) :
+    name ∈ dir ↔ name ∈ removeObsolete s dir ∨ name ∈ toDelete s dir := by
+  constructor
+  · intro hm
+    by_cases hd : name ∈ toDelete s dir
+    · exact .inr hd
+    · exact .inl (by simp [removeObsolete, hm, hd])
+  · rintro (h | h)
+    · exact (List.mem_filter.1 h).1
+    · exact toDelete_subset s dir name h
+
+theorem removeObsolete_idempotent (s : GcState) (dir : List String) :
+    removeObsolete s (removeObsolete s dir) = removeObsolete s dir := by
+  cases h : s.bgError with
+  | true => simp [removeObsolete_bgError h]
+  | false => simp [removeObsolete_eq s _ h]
+
+/-- A second gc pass with the same state finds nothing to delete. -/
+theorem toDelete_after_removeObsolete (s : GcState) (dir : List String) :
+    toDelete s (removeObsolete s dir) = [] := by
+  cases h : s.bgError with
+  | true => exact bg_error_suspends s _ h
+  | false =>
+    rw [removeObsolete_eq s dir h]
+    simp [toDelete, h, List.filter_filter]
+
+/-! ### 5. file numbers are fresh -/
+
+/-- `new` never decreases `nextFile` (it increases it by one) and returns the old value. -/
+theorem new_nextFile (s : GcState) :
+    (newFileNumber s).1 = s.nextFile ∧ (newFileNumber s).2.nextFile = s.nextFile + 1 := ⟨rfl, rfl⟩
+
+/-- `mark` never decreases `nextFile`. -/
+theorem mark_nextFile_le (s : GcState) (n : Nat) : s.nextFile ≤ (markFileNumber s n).nextFile := by
+  rw [markFileNumber_nextFile]; omega
+
+/-- After recovery marked a number found on disk, later allocations exceed it. -/
+theorem mark_above (s : GcState) (n : Nat) : n < (markFileNumber s n).nextFile := by
+  rw [markFileNumber_nextFile]; omega
+
+/-- `new` and `mark` never decrease `nextFile`, neither stepwise nor over a whole run. -/
+theorem nextFile_monotone_without_reuse (s : GcState) (ops : List AllocOp)
+    (h : ∀ op ∈ ops, op.isReuse = false) : s.nextFile ≤ (runAlloc s ops).1.nextFile :=
+  (runAlloc_noReuse s ops h).1
+
+theorem nextFile_monotone_step (s : GcState) (n : Nat) :
+    s.nextFile ≤ (newFileNumber s).2.nextFile ∧ s.nextFile ≤ (markFileNumber s n).nextFile :=
+  ⟨Nat.le_succ _, mark_nextFile_le s n⟩
+
+/-- Marked numbers stay below `nextFile` for the rest of a reuse-free run, so they are never
+    handed out. -/
+theorem mark_above_run (s : GcState) (n : Nat) (ops : List AllocOp)
+    (h : ∀ op ∈ ops, op.isReuse = false) :
+    n < (runAlloc (markFileNumber s n) ops).1.nextFile ∧
+    ∀ x ∈ (runAlloc (markFileNumber s n) ops).2, n < x := by
+  obtain ⟨h1, _, h3⟩ := runAlloc_noReuse (markFileNumber s n) ops h
+  have := mark_above s n
+  exact ⟨by omega, fun x hx => by have := (h3 x hx).1; omega⟩
+
+/-- In a run without `reuse` the numbers handed out are strictly increasing, at least the initial
+    `nextFile` and below the final `nextFile`. -/
+theorem new_numbers_strictly_increasing (s : GcState) (ops : List AllocOp)
+    (h : ∀ op ∈ ops, op.isReuse = false) :
+    (runAlloc s ops).2.Pairwise (· < ·) ∧
+    ∀ x ∈ (runAlloc s ops).2, s.nextFile ≤ x ∧ x < (runAlloc s ops).1.nextFile :=
+  (runAlloc_noReuse s ops h).2
+
+/-- Hence they are pairwise distinct and distinct from every number below the initial `nextFile`
+    (all numbers in use before, by `Inv.numsBound`). -/
+theorem numbers_fresh (s : GcState) (ops : List AllocOp)
+    (h : ∀ op ∈ ops, op.isReuse = false) :
+    (runAlloc s ops).2.Nodup ∧
+    ∀ x ∈ (runAlloc s ops).2, ∀ old, old < s.nextFile → x ≠ old := by
+  obtain ⟨hp, hb⟩ := new_numbers_strictly_increasing s ops h
+  refine ⟨?_, fun x hx old hold => by have := (hb x hx).1; omega⟩
+  exact hp.imp (fun hlt => Nat.ne_of_lt hlt)
+
+/-- `reuse n` changes the state only when `n` is the number handed out last; it then lowers
+    `nextFile` to `n` and touches nothing else, so the next `new` returns `n` again. -/
+theorem reuse_only_last (s : GcState) (n : Nat) :
+    (s.nextFile ≠ n + 1 → reuseFileNumber s n = s) ∧
+    (s.nextFile = n + 1 →
+      reuseFileNumber s n = { s with nextFile := n } ∧
+      (newFileNumber (reuseFileNumber s n)).1 = n ∧
+      (newFileNumber (reuseFileNumber s n)).2 = s) := by
+  refine ⟨reuseFileNumber_of_ne, fun h => ?_⟩
+  rw [reuseFileNumber_of_eq h]
+  refine ⟨rfl, rfl, ?_⟩
+  simp [newFileNumber, ← h]
+
+theorem reuse_changes_iff (s : GcState) (n : Nat) :
+    reuseFileNumber s n ≠ s ↔ s.nextFile = n + 1 := by
+  constructor
+  · intro h
+    apply Classical.byContradiction
+    intro hne
+    exact h (reuseFileNumber_of_ne hne)
+  · intro h heq
+    have := congrArg GcState.nextFile heq
+    rw [reuseFileNumber_nextFile] at this
+    simp [h] at this
+
+/-- `new` directly followed by `reuse` of the returned number is a no-op on the state. -/
+theorem new_then_reuse (s : GcState) :
+    reuseFileNumber (newFileNumber s).2 (newFileNumber s).1 = s := reuse_new_cancel s
+
+/-- Arbitrary runs (any interleaving of `new`, `reuse`, `mark`): if `new` returns `x`, then some
+    operations `mid` run, and the next `new` returns `x` again, then `mid` contains a `reuse x`
+    executed in a state with `nextFile = x + 1`, i.e. while `x` was the number handed out last and
+    not followed by any outstanding allocation. -/
+theorem handed_out_twice_needs_reuse (s : GcState) (pre mid : List AllocOp) (x : Nat)
+    (h1 : (runAlloc s pre).1.nextFile = x)
+    (h2 : (runAlloc (newFileNumber (runAlloc s pre).1).2 mid).1.nextFile = x) :
+    (runAlloc s (pre ++ .new :: (mid ++ [.new]))).2 = (runAlloc s pre).2 ++ x ::
+        ((runAlloc (newFileNumber (runAlloc s pre).1).2 mid).2 ++ [x]) ∧
+    ∃ a b, mid = a ++ AllocOp.reuse x :: b ∧
+      (runAlloc (newFileNumber (runAlloc s pre).1).2 a).1.nextFile = x + 1 := by
+  constructor
+  · simp [runAlloc_append, runAlloc_cons, stepAlloc, h1, h2]
+  · exact runAlloc_drop_needs_reuse _ mid x (by simp [h1]) (by omega)
+
+/-- Under the call discipline of db_impl.c:1843 (`reuse n` only directly after the `new` that
+    returned `n`, when creating file `n` failed) every `new; reuse` pair is a no-op, and the numbers
+    that were handed out and not given back (`dropCancelled`) are strictly increasing, fresh, and
+    below the final `nextFile`.  So a number is handed out twice only if it was given back immediately,
+    with no allocation in between, and its file was never installed. -/
+theorem disciplined_numbers_fresh (s : GcState) (ops : List AllocOp) (h : Disciplined s ops) :
+    (runAlloc s (dropCancelled ops)).1 = (runAlloc s ops).1 ∧
+    s.nextFile ≤ (runAlloc s ops).1.nextFile ∧
+    (runAlloc s (dropCancelled ops)).2.Pairwise (· < ·) ∧
+    ∀ x ∈ (runAlloc s (dropCancelled ops)).2, s.nextFile ≤ x ∧ x < (runAlloc s ops).1.nextFile := by
+  have hs := runAlloc_dropCancelled_state s ops h
+  have := runAlloc_noReuse s (dropCancelled ops) (dropCancelled_noReuse_of_disciplined s ops h)
+  rw [hs] at this
+  exact ⟨hs, this⟩
+
+/-! ### non-vacuity -/
+
+/-- a state with one live version {5, 7}, pending output 9, log 10, prev log 0, MANIFEST 4 -/
+def exState : GcState :=
+  { liveVersions := [[5, 7]], pending := [9], logNumber := 10, prevLogNumber := 0,
+    manifestNumber := 4, nextFile := 11, bgError := false }
+
+def exDir : List String :=
+  ["CURRENT", "LOCK", "LOG", "LOG.old", "MANIFEST-000004", "MANIFEST-000002", "000005.ldb",
+   "000006.ldb", "000007.sst", "000009.ldb", "000009.dbtmp", "000008.dbtmp", "000010.log",
+   "000003.log", "notes.txt", "lost/000006.ldb"]
+
+example : toDelete exState exDir =
+    ["MANIFEST-000002", "000006.ldb", "000008.dbtmp", "000003.log"] := by decide
+example : removeObsolete exState exDir =
+    ["CURRENT", "LOCK", "LOG", "LOG.old", "MANIFEST-000004", "000005.ldb", "000007.sst",
+     "000009.ldb", "000009.dbtmp", "000010.log", "notes.txt", "lost/000006.ldb"] := by decide
+example : "000006.ldb" ∈ toDelete exState exDir ∧
+    parseFileName "000006.ldb" = some (.table, 6) ∧ 6 ∉ liveSet exState := by decide
+example : "000003.log" ∈ toDelete exState exDir ∧
+    parseFileName "000003.log" = some (.log, 3) := by decide
+example : "MANIFEST-000002" ∈ toDelete exState exDir := by decide
+example : 9 ∈ exState.pending ∧ fileNumStr 9 ++ ".ldb" = "000009.ldb" ∧ "000009.ldb" ∈ exDir := by
+  decide
+example : (fileNumStr 9 ++ ".ldb") ∉ toDelete exState exDir :=
+  pending_protects exState exDir 9 (by decide) (by decide)
+example : toDelete { exState with bgError := true } exDir = [] := bg_error_suspends _ _ rfl
+example : ∀ name ∈ removeObsolete exState exDir,
+    parseFileName name = none ∨ ownedAndLive exState name = true := no_garbage_owned _ _ rfl
+example : parseFileName "notes.txt" = none ∧ "notes.txt" ∈ removeObsolete exState exDir := by decide
+-- the previous log is kept even though it is older than the current log
+example : toDelete { exState with prevLogNumber := 3 } ["000003.log", "000002.log"] =
+    ["000002.log"] := by decide
+
+-- allocation machine
+example : runAlloc exState [.new, .mark 20, .new, .new] =
+    ({ exState with nextFile := 23 }, [11, 21, 22]) := rfl
+example : ∀ op ∈ [AllocOp.new, .mark 20, .new, .new], op.isReuse = false := by decide
+-- new 11; reuse 11 (file creation failed); new 11 again; new 12; reuse 11 is then a no-op
+example : runAlloc exState [.new, .reuse 11, .new, .new, .reuse 11, .new] =
+    ({ exState with nextFile := 14 }, [11, 11, 12, 13]) := rfl
+example : Disciplined exState [.new, .reuse 11, .new, .mark 3, .new] := by
+  simp [Disciplined, exState]
+example : dropCancelled [.new, .reuse 11, .new, .mark 3, .new] = [.new, .mark 3, .new] := by decide
+example : (runAlloc exState [.new, .reuse 11, .new, .mark 3, .new]).2 = [11, 11, 12] ∧
+    (runAlloc exState (dropCancelled [.new, .reuse 11, .new, .mark 3, .new])).2 = [11, 12] := by
+  decide
+-- without the discipline a number can come back later: this is what `handed_out_twice_needs_reuse`
+-- describes (the `reuse 11` happens while nextFile = 12)
+example : (runAlloc exState [.new, .new, .reuse 12, .reuse 11, .new]).2 = [11, 12, 11] := by decide
+example : ¬ Disciplined exState [.new, .new, .reuse 12, .reuse 11, .new] := by
+  simp [Disciplined, exState, newFileNumber]
+example : 17 < (markFileNumber exState 17).nextFile := mark_above _ _
 
 end Lcdb.C13
